@@ -130,7 +130,9 @@ class RefServer:
             self.b1_index += 1
             prefs = c.get("szx1", [6])
             pref = prefs[min(index, len(prefs) - 1)]
-            ack_szx = min(szx, pref)
+            # a server states the size it prefers; one that prefers larger blocks than the client sends may say so --
+            # the client must never follow upwards (RFC 7959 2.5: the exponent does not grow)
+            ack_szx = pref if c.get("ack_larger") else min(szx, pref)
             if more:
                 ack_num = num
                 if mis == "wrong_num_in_block1_ack" and index >= c.get("mis_at", 0) and not self.applied:
@@ -148,7 +150,7 @@ class RefServer:
         # the response to the completed action
         opts = []
         if b1 is not None:
-            opts.append((R.O_BLOCK1, (b1[0], False, min(b1[2], c.get("szx1", [6])[-1]))))
+            opts.append((R.O_BLOCK1, (b1[0], False, c.get("szx1", [6])[-1] if c.get("ack_larger") else min(b1[2], c.get("szx1", [6])[-1]))))
         szx2 = c["szx2"] if b2 is None else min(b2[2], c["szx2"])
         self.b2_index = 0
         if len(self.rep) > bsize(szx2) or b2 is not None:
@@ -257,6 +259,8 @@ def run_case(case, want_trace=False):
             labels.add("block1-multi")
         if nb2 >= 1:
             labels.add("block2-multi")
+        if case.get("ack_larger") and nb1 >= 2:
+            labels.add("server-advertises-larger-block1-size")
         if len(set(case.get("szx1", [6]))) > 1 and nb1 >= 2:
             labels.add("block1-size-reduced")
         if case.get("shrink2_at") is not None and nb2 >= 1:
@@ -290,6 +294,8 @@ def _case(draw):
         "mis_at": draw(st.integers(0, 3)),
         "rng": draw(st.integers(0, 99)),
     }
+    if draw(st.integers(0, 3)) == 0:
+        case["ack_larger"] = True
     if draw(st.integers(0, 2)) == 0:
         case["shrink2_at"] = draw(st.integers(1, 3))
         case["shrink2_to"] = draw(st.integers(0, 5))
@@ -317,7 +323,7 @@ def selftest():
 RULE = (
     "One block-wise request (PUT/POST/FETCH/GET) through the default API of a real aiocoap client to an independent RFC 7959 reference server on a raw peer; generated: request and response "
     "body lengths from {0,1,15,16,17,31,32,33,63,64,65,1023,1024,1025,1124,1125,2048,2049,3000,5000}, client maximum_block_size_exp 0-6, the server's Block1 size preference per block index "
-    "(non-increasing => mid-transfer reductions), its Block2 size and an optional mid-transfer Block2 reduction with renumbering, ETag present or not, datagram fates (drop/dup/delay), and a "
+    "(non-increasing => mid-transfer reductions; optionally advertised even when larger than what the client sends), its Block2 size and an optional mid-transfer Block2 reduction with renumbering, ETag present or not, datagram fates (drop/dup/delay), and a "
     "misbehaviour (none / wrong NUM in a Block1 ack / M=1 or 2.31 on the final ack / short non-final Block2 payload / over-long final Block2 payload / Block2 NUM skipped or repeated / ETag change). "
     "Oracle: conforming server => body reassembled by the reference server == API payload, result payload == representation, expected code, action executed once, and the reference server found every "
     "Block1/Block2 option contiguous (NUM x size == bytes so far), M exactly on non-final blocks, exponent never growing; failure only as NetworkError under loss. Misbehaving server (once the "
